@@ -4,7 +4,7 @@
         (how the traceparent ctxt is held: plain, boxed / shared erased, AssertInternal-wrapped, or as the erased ctxt of an
          AmbientSlot runtime — the model is the same for all: wrappers are transparent, property C03)
         P ::= event | (span P…) | (spant P…) | (spana P…) | (push (TRACE SPAN FLAGS) P…) | (carry P…) | (root P…)
-            | (pushs TS P…) | (pushb (TRACE SPAN FLAGS) TS P…) | (spanp P…) | (pushp (TRACE SPAN FLAGS) P…)      TS ::= N (0 = the empty tracestate; text "sN")
+            | (pushs TS P…) | (pushb (TRACE SPAN FLAGS) TS P…) | (spanp P…) | (pushp (TRACE SPAN FLAGS) P…) | (sspan (TRACE SPAN FLAGS) P…)      TS ::= N (0 = the empty tracestate; text "sN")
         TRACE, SPAN ::= none | N with N ≥ 1000000 (ids that arrive in headers; rng-drawn ids are the counter 1,2,3…)
     → the observation log, oldest first, then `calls=N cur=(T S F)`
 -/
@@ -39,6 +39,12 @@ partial def prog? : Sexp → Option Prog
     let tp ← tp? tp
     let cs ← progs? cs
     pure (.push tp cs)
+  -- a sync `#[emit::span(setup: ..)]` whose setup pushes and enters the incoming traceparent before the span is created
+  -- (and leaves it after the span completed): the pushed header around the span
+  | .list (.atom "sspan" :: tp :: cs) => do
+    let tp ← tp? tp
+    let cs ← progs? cs
+    pure (.push tp [.span cs])
   | .list (.atom "spant" :: cs) => (progs? cs).map Prog.spanThread
   | .list (.atom "spana" :: cs) => (progs? cs).map Prog.spanAsync
   | .list (.atom "carry" :: cs) => (progs? cs).map Prog.carry
